@@ -68,6 +68,11 @@ def generate(tier, rng):
                  "steps": [{"act": "Callback"}, {"act": "W", "key": "st.seek", "v": {"k": "abs", "x": 2}}] + [{"act": "Callback"}] * 10})
     scen.append({"mode": "handles", "scene": "T", "ring": 48, "len": 200, "src": "late-seek-after-decoding-ended",
                  "steps": [{"act": "Callback"}] * 40 + [{"act": "W", "key": "st.seek", "v": {"k": "abs", "x": 8}}] + [{"act": "Callback"}] * 16})
+    # ... also when the decoder is slow to deliver what the late seek asks for and the ring runs dry meanwhile: the sound waits for
+    # the audio (it has not reached its end), and the seek is heard once the decoder delivers
+    for x, pre in ((8, 40), (24, 44), (96, 38)):
+        scen.append({"mode": "handles", "scene": "T", "ring": 48, "len": 200, "hold": 16, "src": "late-seek-slow-decoder",
+                     "steps": [{"act": "Callback"}] * pre + [{"act": "W", "key": "st.seek", "v": {"k": "abs", "x": x}}] + [{"act": "Callback"}] * 16})
     # seeks (jump key): seeded random, one kind per window, positions kept inside the sound
     for k in range(60 if tier == "quick" else 2000):
         steps, pos = [], 0
